@@ -244,5 +244,6 @@ pub fn canary_c12(root: &Path, p: &PathBuf)
 '''),
 ] + TAIL
 
-OBLIGATIONS = {'relative_to_root': ['C12'], 'Package::extract': ['C12'], 'lemma_inside_join': ['C12']}
+OBLIGATIONS = {'relative_to_root': ['C12', 'C04'], 'Package::extract': ['C12', 'C04'],   # C04: no panic on hostile packages
+               'lemma_inside_join': ['C12']}
 CANARIES = ['canary_c12']
